@@ -21,7 +21,10 @@ META = {
         "the cases) and by backend latency. Oracle (orphan monitor): after the terminal CONTEXT record of X has been handed "
         "to the checkpoint pipeline (observed by wrapping create_checkpoint from the test side), no update whose ancestor "
         "chain contains X that is handed over later reaches the backend, and no step/check/submitter function is entered "
-        "under X. Non-trivial = a survivor attempted >=1 durable operation after the completion (an OrphanedChild rejection "
+        "under X; in the backend's arrival order no descendant record comes after the completion record of X within "
+        "the same invocation (first-in first-out pipeline). A quarter of the cases park every branch first so that the race "
+        "happens in a resumed invocation; an extra stage uses survivors with 300-500 KB results (batch overflow) next to "
+        "the completion record with a backend call in flight. Non-trivial = a survivor attempted >=1 durable operation after the completion (an OrphanedChild rejection "
         "or a later hand-over was observed); distinct = (program shape, decision-trace hash)."
         " Plus LinePreempt sweeps (one long preemption per executed line of state.py/executor.py) over four fixed early-completing parallels whose survivor is about to hand over its next record."
     ),
@@ -71,6 +74,11 @@ def early_batch(draw, depth=0):
         deciders, comp = [[fast_fail], [dict(fast_fail)]], {"min": None, "tol": 1, "pct": None}
     else:
         deciders, comp = [[fast_fail]], None
+    if depth == 0 and draw(st.integers(0, 3)) == 0:
+        # everything parks first: deciders and survivors act in a RESUMED invocation (their contexts and the batch itself
+        # are known from the loaded history only, operations started now hang below them)
+        deciders = [[{"op": "wait", "secs": 1}] + d for d in deciders]
+        survivors = [[{"op": "wait", "secs": 1}] + sv for sv in survivors]
     branches = deciders + survivors
     order = draw(st.permutations(list(range(len(branches)))))
     branches = [branches[i] for i in order]
@@ -97,6 +105,32 @@ def cases(draw):
         "sched": draw(G.schedules()),
         "line": draw(st.sampled_from([[], [], ["state"], ["executor"]])),
     }
+
+
+@st.composite
+def big_cases(draw):
+    """Survivors whose records do not fit one batch (the batcher's overflow path) while the completion record of the
+    parent travels in the same batching window, with a backend call in flight."""
+    n_big = draw(st.integers(2, 3))
+    big = [[{"op": "step", "beh": {"kind": "big", "n": draw(st.sampled_from([300 * 1024, 400 * 1024, 500 * 1024])), "ch": "b"}, "sem": "least", "retry": {"kind": "none"},
+             "sleep": draw(st.sampled_from([0.05, 0.1, 0.15, 0.25, 0.4]))}] + draw(st.lists(G.steps(allow_fail=False), max_size=1)) for _ in range(n_big)]
+    fast = [{"op": "step", "beh": {"kind": "ret", "v": to_tagged(1)}, "sem": "least", "retry": {"kind": "none"}, **({"sleep": draw(st.sampled_from([0.05, 0.1]))} if draw(st.booleans()) else {})}]
+    branches = [fast] + big
+    order = draw(st.permutations(list(range(len(branches)))))
+    stmt = {"op": "parallel", "branches": [branches[i] for i in order], "cfg": {"max_concurrency": None, "completion": {"min": 1, "tol": 5, "pct": None}, "explicit": True}}
+    if draw(st.booleans()):
+        stmt = {"op": "child", "body": [stmt]}
+    body = [{"op": "try", "body": stmt, "catch": ["Exception"], "handler": []},
+            {"op": "step", "beh": {"kind": "ret", "v": to_tagged("after")}, "sem": "least", "retry": {"kind": "none"}, "sleep": 1.0}]
+    return {"prog": {"body": body}, "backend": {"response": "delta", "api_latency": draw(st.sampled_from([0.1, 0.2, 0.4]))}, "plan": {"crashes": []},
+            "sched": draw(G.schedules()), "line": []}
+
+
+def _big_stage(ctx):
+    from .. import wfcheck as WC
+
+    WC.run_generated(ctx, big_cases(), PROPS, n_cases=max(12, ctx.budget["random_cases"] // 8), nontrivial=nontrivial,
+                     classes=lambda r, c: ["batch-overflow-next-to-completion"] + classes(r, c), seed_offset=9)
 
 
 def nontrivial(run, case):
@@ -161,4 +195,4 @@ def _sweep_stage(ctx):
                               limit=ctx.budget.get("sweep_limit", 700), label=f"one long preemption per line of {'/'.join(line)}: {label}")
 
 
-install(globals(), props=("C10",), cases=cases, nontrivial=nontrivial, classes=classes, stages=(_sweep_stage,))
+install(globals(), props=("C10",), cases=cases, nontrivial=nontrivial, classes=classes, stages=(_big_stage, _sweep_stage))
